@@ -50,8 +50,9 @@ ASSUMPTIONS = [
     "times / lead times / location ids (the rest is in no verification) plus the scores; where the text reader deviates "
     "(missing lat / lon / altitude token read as 0, missing id token replaced by a new id, missing date token: crash) the "
     "check prints KNOWN-FINDING (known_findings.txt)",
-    "text2nc: float32-representable data, integer location ids, obs and fcst columns present, units in display form "
-    "($..$ or %)",
+    "text2nc: float32-representable data, integer location ids, units in display form ($..$ or %); obs and fcst columns "
+    "each present or absent (a file needs one of obs / fcst / p.. / q..): the converted file has exactly the fields of "
+    "the text file",
     "files without location ids: locations are identified by their metadata (ids are synthetic in both readers)",
 ]
 RULE = ("nc.read: generated tables (1-3 times / lead times / locations, unsorted dimension values, every optional variable "
@@ -66,8 +67,12 @@ RULE = ("nc.read: generated tables (1-3 times / lead times / locations, unsorted
         "location/id, altitude/elev, every missing token) with the file names swapped (*.txt holds NetCDF, *.nc holds "
         "text): all attributes and get_scores / mae / ets on both inputs compared exactly; every second table also with ONE "
         "coordinate column (time, leadtime, location, lat, lon, altitude) holding missing entries = rows with a missing "
-        "token in that column (unixtime or date+hour); nc.text2nc: text file -> "
-        "scripts/text2nc.py (in-process, every 25th as a subprocess) -> read back; nc.detect: content variants x file "
+        "token in that column (unixtime or date+hour); the missing tokens of the text side are -999 -999.0 nan NaN NA . and "
+        "the values above 1e30 that are missing in NetCDF as well: 1e31, inf, 9.96921e+36, nextafter(1e30) (both readers "
+        "must give NaN); nc.text2nc: text file -> "
+        "scripts/text2nc.py (in-process, every 25th as a subprocess) -> read back and compared in every attribute incl. which "
+        "of obs / fcst exist (one table in ten has no obs or no fcst, every third table is converted a second time "
+        "with its obs column, its fcst column or both removed); nc.detect: content variants x file "
         "extensions incl. malformed NetCDF files; non-trivial = some field holds a finite value")
 EXHAUSTIVE = {"quick": False, "thorough": False}
 LEVEL_TEXT = ("Lean theorems: every attribute of the assembled NetCDF input is util.clean of the stored variable (masked, NaN, "
@@ -78,8 +83,9 @@ LEVEL_TEXT = ("Lean theorems: every attribute of the assembled NetCDF input is u
               "file the position of a NaN time / lead time / location id is in none of the index lists the arrays are cut with "
               "(its cases take part in no verification; no verified dimension value is NaN); a NaN lat / lon / altitude is "
               "inside no range; reading back what text2nc writes returns the dataset "
-              "exactly, in every attribute incl. ensemble members and x0 / x1, for every rounding that leaves its numbers "
-              "alone; the get_input decision table over content predicates (the function has no name argument); "
+              "exactly, in every attribute incl. ensemble members, x0 / x1 and WHICH of obs / fcst exist (an input without "
+              "observations converts to a file without an obs variable; no assumption that obs / fcst are present), for "
+              "every rounding that leaves its numbers alone; the get_input decision table over content predicates (the function has no name argument); "
               "required dims/vars and the defaults of absent optional variables. Partial: the byte level of NetCDF, "
               "float32 rounding and the text reader (C09) are outside.")
 TECHNIQUE = ("Lean 4 proof over a hand-written model of the NetCDF reader and text2nc (clean regenerated from source) + "
@@ -458,7 +464,7 @@ def table_of(dims, variables, attrs):
 
 def _tok(v, rng):
     if math.isnan(v):
-        return rng.choice(["-999", "nan", "NA", "-999.0", "NaN", "."])
+        return _mtok(rng)
     if math.isinf(v):
         return "inf" if v > 0 else "-inf"
     if v == int(v) and abs(v) < 1e15 and rng.random() < 0.5:
@@ -536,7 +542,9 @@ def _num(v):
     return "%d" % int(v) if (v == int(v) and abs(v) < 1e15) else repr(v)
 
 
-MISSING_TOKENS = ["-999", "nan", "NA", "-999.0", "NaN", "."]
+# a missing value in a text file: not a number, nan, -999 and — the same encodings as in a NetCDF file (Text._clean since
+# f945b9c) — anything above 1e30: inf, the usual NetCDF fill values
+MISSING_TOKENS = ["-999", "nan", "NA", "-999.0", "NaN", ".", "1e31", "inf", "9.96921e+36", "1.0000000000000002e+30"]
 
 
 def _mtok(rng):
@@ -824,8 +832,7 @@ def impl_text2nc(op):
             # the same comparison against what the REAL text reader sees (float32 precision = exact for this data)
             ktx, itx = get_input(src)
             tx = from_input(itx)
-            d = [m for s, m in diff_datasets(tx, res, skip=("units$",))
-                 if not (s.get("field") in ("obs", "fcst") and tx[s["field"]] is None)]
+            d = [m for s, m in diff_datasets(tx, res, skip=("units$",))]
             if d:
                 line += " !text-reader-vs-output: " + d[0]
             return line
@@ -982,8 +989,9 @@ def judge(op, impl_out, spec_out):
             return ({"kind": "text2nc", "case": "value"}, "text2nc output differs from the text input: " + msg[:300])
         D = parse_canon(a[2])
         got = parse_canon(impl_out)
-        diffs = [(s, m) for s, m in diff_datasets(D, got, skip=("units$",))
-                 if not (s.get("field") in ("obs", "fcst") and D[s["field"]] is None)]
+        # every attribute, incl. WHICH fields exist: a text file without an obs (fcst) column converts to a file
+        # without observations (forecasts), obs = None on both sides (5c8853e)
+        diffs = diff_datasets(D, got, skip=("units$",))
         order = {"ens": 1, "x0": 2, "x1": 2}
         diffs.sort(key=lambda d: order.get(d[0].get("field"), 0))
         if diffs:
@@ -1244,6 +1252,16 @@ def gen_ops(tier, rng):
             if len(set(Dt["times"])) == len(Dt["times"]):
                 yield "nc.text2nc", "text2nc %d %s" % (rng.randrange(10 ** 6) * 25 + (0 if k % 25 == 0 else 1 + rng.randrange(24)),
                                                        canon_str(Dt))
+                if k % 3 == 1:
+                    # the same text file WITHOUT its obs column / fcst column / both (as long as the header keeps one of
+                    # obs, fcst, p.., q..): the converted file must not have that variable either
+                    drop = rng.choice([("obs",), ("fcst",), ("obs", "fcst")])
+                    Du = dict(Dt)
+                    for n in drop:
+                        Du[n] = None
+                    if Du["obs"] is not None or Du["fcst"] is not None or Du["cdf"] is not None or Du["x"] is not None:
+                        yield "nc.text2nc", "text2nc %d %s" % (rng.randrange(10 ** 6) * 25 + 1 + rng.randrange(24),
+                                                               canon_str(Du))
     exts = ["nc", "txt", "none", "dat"]
     for key, variants in sorted(DETECT_VARIANTS.items()):
         for v in variants:
